@@ -30,7 +30,10 @@ RULE = ('random programs whose bodies use call/1..N (extra arguments), once/1, f
         'binding-sensitive goals with bags / extra arguments / terms that share the caller\'s variables with the goal, and queries the builtins '
         'themselves through YP.query. Non-trivial: a builtin is called with a goal that arrives through a variable or has extra arguments or has no '
         'solution, and some query has an answer. Intrinsic oracle: the program with every builtin call replaced by its standard '
-        'definition (findall(T,G,B) => findall(T,G,L), L = B; X \\= Y => \\+ X = Y; inline once(G) => (G -> true); inline call(G,A..) => the goal) gives the same answers.')
+        'definition (findall(T,G,B) => findall(T,G,L), L = B; X \\= Y => \\+ X = Y; inline once(G) => (G -> true); inline call(G,A..) => the goal) gives the same answers. '
+        "Round 4, family 'api' (props/c09_api.py): = and \\= on API-built terms (None, bools, floats, bytes, tuples ... of lib/pyconsts.py) asked directly through YP.query, through call/N, a goal "
+        'variable, once/1, findall/3 and in a compiled program fed by a registered Python predicate; \\= must be the failure of = in every form (oracle), outcome also from a reference unifier '
+        '(constants by ==) and the Coq unification model.')
 TRUSTED_BASE = []
 
 N_FIRST = {'quick': 40, 'thorough': 400}
